@@ -43,6 +43,10 @@ add("C16", "runtime monitoring: boundary monitors on relabel / get_relabel_map /
     "Generated graphs on 2..9 vertices x permutations x (n_iso, thresholds, seeds, flags) x orbit method and depth are pushed through the real functions; every returned matrix is checked for isomorphism with the input, distinctness, count and position, every returned orbit graph for membership in the exhaustive LC orbit (n<=6) or in the chain of complementations the probe observed (each step checked).",
     TRUST + "VF2 (networkx) decides isomorphism above 7 vertices.", "DESIGN.md section 5, C16")
 
+add("C08", "runtime monitoring: boundary monitors on every conversion function and on QuantumState.convert_representation for all ordered representation pairs, judged by independent graph-state / Pauli-algebra / dense oracles; probe on the Hadamard-position finder",
+    "All labelled graphs on <=4 (thorough <=5) vertices and random graphs up to 40 vertices (8 for density matrices), in permuted node orders and random generating sets, go through graph<->stabilizer<->density conversions and all six ordered convert_representation pairs; all stabilizer states on <=2 (thorough <=3) qubits and random states up to 12 qubits go through state_to_graph, whose returned gates are replayed by the oracle onto the input and must give the returned graph's state with exact signs.",
+    TRUST, "DESIGN.md section 5, C08")
+
 NOT_YET = {
 }
 
